@@ -22,8 +22,12 @@ static ThreadLink *tl;
 static char wm[2][24];          /* the two messages the writer sends (sizes W0, W1) */
 static char got[3][MAXMSG];     /* what the reader received, in order */
 static int ngot;
-static int yields_left;
-extern "C" uint32_t verif_yield(void) { if(yields_left <= 0) return 0; if(nd_bool()) { yields_left--; return 1; } return 0; }
+/* concrete schedule per query: thread t yields to the other one at its YAT[t][0]-th and YAT[t][1]-th yield point
+ * (a yield point = an atomic index load/store or a buffer copy); -1 = never.  The program counters of the step
+ * functions stay concrete, the message payloads are symbolic. */
+static int cur, ycount[2];
+static const int YAT[2][2] = { { YW1, YW2 }, { YR1, YR2 } };
+extern "C" uint32_t verif_yield(void) { int c = ycount[cur]++; return c == YAT[cur][0] || c == YAT[cur][1]; }
 
 static void mkmsg(char *o, int size, char name)
 {
@@ -61,13 +65,14 @@ extern "C" void harness(void)
 #if WOPS < 2
     tl->raw_write(wm[0]);     /* the first message is already queued when the threads start */
 #endif
-    ngot = 0; yields_left = YIELDS;
+    ngot = 0; ycount[0] = ycount[1] = 0;
     RT_BEGIN();
     uint32_t wd = 0, rd = 0;
-    for(int step = 0; step < 2 * YIELDS + 4 && !(wd && rd); step++) {
-        bool pickw = nd_bool();
-        if(wd) pickw = false; else if(rd) pickw = true;
-        if(pickw) wd = writer_thread__step(); else rd = reader_thread__step();
+    cur = FIRST;                       /* 0 = writer starts, 1 = reader starts */
+    for(int step = 0; step < 8 && !(wd && rd); step++) {
+        if(cur == 0 ? wd : rd) cur = !cur;          /* that thread has finished: the other one continues */
+        if(cur == 0) wd = writer_thread__step(); else rd = reader_thread__step();
+        cur = !cur;                                  /* a step returns at a yield (or at the end): switch */
     }
     CHECK(wd && rd, "C06 both threads finish within the step budget");
     RT_END();
